@@ -7,6 +7,7 @@ import struct
 from .registry import rule
 from .core import call_name, dotted, walk_shallow, walk_body, unparse, AnchorMissing
 from .cfg import node_calls
+from .sem import guards_say
 
 
 def _type_size(prog, mod, name):
@@ -84,7 +85,7 @@ def bl5(ctx, R):
     n_ret = 0
     for guards, val, _env in paths:
         gtxt = " and ".join(show(alpha(g)) for g in guards)
-        is_string_path = any(contains(g, lambda x: x == ("class", "types.String")) and not (g[0] == "not") for g in guards)
+        is_string_path = guards_say(guards, lambda c: contains(c, lambda x: x == ("class", "types.String")))
         if val is None or val[0] != "list":
             R.undecided("writer.TdmsSegment.raw_data_index::path [%s]" % gtxt[:60], fi.where(), "returned value is not a list literal on this path: %s" % (show(alpha(val))[:80] if val else None))
             continue
@@ -147,7 +148,7 @@ def bl5(ctx, R):
             R.check(rdo == ms, "writer.TdmsSegment.leadin::raw data offset", fi.where(), "raw data offset = metadata size",
                     "raw data offset is `%s`, not the metadata size" % (show(rdo) if rdo else None))
             tag = items[0][2][0] if items[0][0] == "new" and items[0][2] else None
-            R.check(tag == ("phi", ("self", "is_index_file"), ("const", b"TDSh"), ("const", b"TDSm")) or tag == ("phi", ("not", ("self", "is_index_file")), ("const", b"TDSm"), ("const", b"TDSh")),
+            R.check(tag == ("phi", ("self", "is_index_file"), ("const", b"TDSh"), ("const", b"TDSm")),
                     "writer.TdmsSegment.leadin::tag", fi.where(), "TDSh for the index file, TDSm for the data file", "segment tag is `%s`" % (show(tag) if tag else None))
     fi = prog.func("writer.TdmsSegment.write")
     md_calls = [c for c in walk_body(fi.node) if isinstance(c, ast.Call) and call_name(c) == "self.metadata"]
@@ -252,7 +253,7 @@ def bl5(ctx, R):
     dt = ("param", ods.params[0])
     S = F = None
     for guards, val, _e in Sym(prog, ods).function_paths():
-        if any(contains(g, lambda x: x == ("class", "types.String")) and g[0] != "not" for g in guards):
+        if guards_say(guards, lambda c: contains(c, lambda x: x == ("class", "types.String"))):
             S = val
         else:
             F = val
@@ -270,7 +271,7 @@ def bl5(ctx, R):
             "write_string_values writes" % (show(alpha(S))[:160] if S else None))
 
     def is_enc(x, src):
-        return x is not None and x[0] == "try" and x[2] == "AttributeError" and x[3] == src and x[1][0] == "comp" and x[1][3] == src and not x[1][4] \
+        return isinstance(x, tuple) and len(x) == 4 and x[0] == "try" and x[2] == "AttributeError" and isinstance(x[1], tuple) and len(x[1]) == 5 and x[3] == src and x[1][0] == "comp" and x[1][3] == src and not x[1][4] \
             and x[1][1] == ("method", "encode", x[1][2], (("const", "utf-8"),), ())
     R.check(is_enc(ENC, dv), "writer.object_data_size::encoded strings", ods.where(), "str.encode('utf-8') per value, falling back to the given bytes",
             "the strings measured are `%s`, not each value's UTF-8 encoding (with the bytes fallback)" % (show(alpha(ENC))[:140] if ENC else None))
